@@ -129,6 +129,7 @@ impl AliasParser {
         if let Some(r) = self.get_replacement_term() {
             replacements.push(r);
             loop {
+                #[cfg(feature = "verif")] crate::verif::tick(601);
                 if !self.expect(AliasTokenKind::Comma) { 
                     break;
                 }
@@ -183,6 +184,7 @@ impl AliasParser {
         // returns (ARG (',' ARG)*)? ']' 
         let mut args = Modifiers::new();
         while self.has_more_tokens() {
+            #[cfg(feature = "verif")] crate::verif::tick(602);
             if self.expect(AliasTokenKind::RightSquare) {
                 break;
             }
@@ -239,6 +241,7 @@ impl AliasParser {
 
 
         while matches!(self.curr_tkn.kind, AliasTokenKind::Diacritic(_)) {
+            #[cfg(feature = "verif")] crate::verif::tick(603);
             let dia = self.eat();
             let d = dia.kind.as_diacritic().unwrap();
             if let Err((mod_index, is_node)) = ipa.check_and_apply_diacritic(&DIACRITS[*d as usize]) {
@@ -368,6 +371,7 @@ impl AliasParser {
         let mut start = None;
         let mut end = 0;
         while self.has_more_tokens() {
+            #[cfg(feature = "verif")] crate::verif::tick(604);
             if self.peek_expect(AliasTokenKind::Cardinal) {
                 let (seg, params, pos) = self.get_ipa()?;
                 vec.push(SegType::Ipa(seg, params));
@@ -419,6 +423,7 @@ impl AliasParser {
         if let Some(trm) = self.get_input_term()? {
             inputs.push(trm);
             loop {
+                #[cfg(feature = "verif")] crate::verif::tick(605);
                 if !self.expect(AliasTokenKind::Comma) { 
                     break;
                 }
